@@ -251,6 +251,7 @@ fn eval_inner(target: &str, input: &str) -> Option<String> {
         }
         "default_ns" => c10_default_ns_witness(),
         "fixed_doc" => c20_fixed_doc(input),
+        "shallow_ignore" => c13_shallow(input),
         "scope_queries" => c09_scope(input),
         "ns_layout" => bounded::ns_layout(input),
         "char_ref" => bounded::char_ref(input),
@@ -303,6 +304,13 @@ fn inputs(target: &str, large: bool) -> Vec<String> {
             let decls = ["", "d1", "d2", "d0", "p1", "p2", "q1", "q2", "d1p1", "p1q1", "q1p1", "p2q1", "d0p1", "d2p1", "p1q2"];
             let mut v = Vec::new();
             for a in decls { for b in decls { for c in decls { v.push(format!("{}|{}|{}", a, b, c)); } } }
+            v
+        }
+        "shallow_ignore" => {
+            let sets = ["", "x1", "x2", "y1", "x1y1", "x1y2", "y1x1", "x1y1z1"];
+            let ign = ["", "x", "y", "xx", "xy", "yx", "xxy", "z", "xyz", "zz"];
+            let mut v = Vec::new();
+            for a in sets { for b in sets { for i in ign { v.push(format!("{}|{}|{}", a, b, i)); } } }
             v
         }
         "fixed_doc" => { let mut v = Vec::new(); for b in 0..4 { for a in 0..4 { v.push(format!("{} {}", b, a)); } } v }
@@ -763,4 +771,39 @@ fn c09_scope(input: &str) -> Option<String> {
         }
     }
     None
+}
+
+// (C13) shallow_equal_ignore_attributes against "attribute maps equal after removing the ignored names (as a set)"
+#[allow(dead_code)]
+fn c13_shallow(input: &str) -> Option<String> {
+    // input: "A|B|I": attributes of a, of b as letters with values like x1y2, ignore list as letters (repeats allowed)
+    let f: Vec<&str> = input.split('|').collect();
+    if f.len() != 3 { return None; }
+    let mut xot = Xot::new();
+    let e = xot.add_name("e");
+    let mk = |xot: &mut Xot, spec: &str| -> Option<xot::Node> {
+        let el = xot.new_element(e);
+        let cs: Vec<char> = spec.chars().collect();
+        let mut k = 0;
+        while k + 1 < cs.len() {
+            let n = xot.add_name(&cs[k].to_string());
+            xot.attributes_mut(el).insert(n, cs[k + 1].to_string());
+            k += 2;
+        }
+        Some(el)
+    };
+    let a = mk(&mut xot, f[0])?;
+    let b = mk(&mut xot, f[1])?;
+    let ignore: Vec<xot::NameId> = f[2].chars().map(|c| xot.add_name(&c.to_string())).collect();
+    let filt = |xot: &Xot, n: xot::Node| -> Vec<(xot::NameId, String)> {
+        let mut v: Vec<(xot::NameId, String)> = xot.attributes(n).iter().filter(|(k, _)| !ignore.contains(k)).map(|(k, v)| (k, v.clone())).collect();
+        v.sort();
+        v
+    };
+    let want = filt(&xot, a) == filt(&xot, b);
+    let got = std::panic::catch_unwind(std::panic::AssertUnwindSafe(|| xot.shallow_equal_ignore_attributes(a, b, &ignore)));
+    match got {
+        Err(_) => Some(format!("shallow_equal_ignore_attributes panics for a={:?} b={:?} ignore={:?}", f[0], f[1], f[2])),
+        Ok(g) => if g != want { Some(format!("a={:?} b={:?} ignore={:?}: returned {}, attribute maps minus the ignored set are {}", f[0], f[1], f[2], g, if want { "equal" } else { "different" })) } else { None },
+    }
 }
